@@ -313,6 +313,12 @@ func checkMain(args []string) int {
 				undecided++
 				fmt.Printf("UNDECIDED harness=%s: %s\n", r.ID, o.Msg)
 			case "unwind":
+				if r.Cfg.UnwindIsViolation {
+					o.Kind = "blocked"
+					o.Msg = "does not terminate within the loop bound: " + o.Msg
+					viols = append(viols, &violation{Harness: hk, ID: r.ID, Obligation: "blocked:does not terminate within the loop bound@" + shortFunc(o.Func), Outcome: o, Cfg: r.Cfg})
+					continue
+				}
 				unwind++
 				fmt.Printf("UNWIND harness=%s: %s (bound insufficient; not counted as discharged)\n", r.ID, o.Msg)
 			case "assert", "panic", "blocked":
